@@ -277,6 +277,9 @@ def check(col: Collector, tier: str):
     check_core_scope_semantics(col, "C01.R14", repo)
     import_obligations(col, "C01.R13", "c04", lambda o: o.rule in ("C04.R1", "C04.R2", "C04.R3", "C04.R4"),
                        "code emitted outside its guard also changes which rows are written: the guarded loop runs (and may throw) for events the guard rejects")
+    import_obligations(col, "C01.R8", "c16", lambda o: o.rule == "C16.R2" and o.detail.startswith("step-context:") and any(k in o.detail for k in ("cmsRun", "ATestRun_eljob")),
+                       "a job whose failure is masked (a pipeline into tee, `|| true`, a condition) delivers the rows written before the fault as if "
+                       "they were all the rows of the input")
     import_obligations(col, "C01.R8", "c16", lambda o: o.rule == "C16.R5" and o.detail == "-d-file-is-sole-input",
                        "rows of a file that was not asked for are rows the query does not denote")
     import_obligations(col, "C01.R17", "c06", lambda o: o.rule in ("C06.R7", "C06.R8"),
